@@ -10,7 +10,7 @@ use itv_core::engine::*;
 use itv_core::engine::watch;
 use itv_core::gen::Profile;
 use itv_core::ir::Op;
-use itv_core::payload::{IntP, OptP, Payload, Plain, StrP, Tracked, UnitLikeP};
+use itv_core::payload::{IntP, MapP, OptP, Payload, Plain, StrP, Tracked, U128P, UnitLikeP};
 use itv_core::world::StepCfg;
 use serde_json::json;
 use std::collections::BTreeMap;
@@ -147,6 +147,8 @@ fn main() {
                 "opt" => run::<OptP>(&args, &prop, seed ^ 0x22, &build, prof, cfg),
                 "str" => run::<StrP>(&args, &prop, seed ^ 0x33, &build, prof, cfg),
                 "tuple" => run::<UnitLikeP>(&args, &prop, seed ^ 0x44, &build, prof, cfg),
+                "u128" => run::<U128P>(&args, &prop, seed ^ 0x55, &build, prof, cfg),
+                "map" => run::<MapP>(&args, &prop, seed ^ 0x66, &build, prof, cfg),
                 _ => run::<Plain>(&args, &prop, seed, &build, prof, cfg),
             };
             std::process::exit(code)
@@ -166,6 +168,10 @@ fn main() {
                 eval_case::<StrP>(&rf.ops, &prof, &cfg, true)
             } else if rf.profile == "C16" && arg(&args, "--payload").as_deref() == Some("tuple") {
                 eval_case::<UnitLikeP>(&rf.ops, &prof, &cfg, true)
+            } else if rf.profile == "C16" && arg(&args, "--payload").as_deref() == Some("u128") {
+                eval_case::<U128P>(&rf.ops, &prof, &cfg, true)
+            } else if rf.profile == "C16" && arg(&args, "--payload").as_deref() == Some("map") {
+                eval_case::<MapP>(&rf.ops, &prof, &cfg, true)
             } else if rf.profile == "C16" || rf.profile == "C17" { eval_case::<Plain>(&rf.ops, &prof, &cfg, true) } else { eval_case::<Tracked>(&rf.ops, &prof, &cfg, true) };
             for l in &run.trace {
                 println!("  {l}");
